@@ -263,6 +263,7 @@ def aggregate(mod, prop, tier, seed, shards, results, t0):
         path = write_replay(prop, ex, n)
         violation_files.append((path, ex, n))
     # a violation must reproduce in a fresh interpreter
+    unconfirmed = []
     if violation_files and os.environ.get('XLMC_NO_REVERIFY') != '1':
         for path, ex, n in violation_files[:MAX_REVERIFY]:
             rc = subprocess.run(
@@ -289,12 +290,26 @@ def aggregate(mod, prop, tier, seed, shards, results, t0):
                     stdout=subprocess.DEVNULL,
                     stderr=subprocess.DEVNULL).returncode
                 if rc2 != 1:
-                    raise HarnessError(
-                        'case %s failed in the exploration but neither when '
-                        'replayed alone (rc=%s) nor when its shard was run '
-                        'again in a fresh interpreter (rc=%s): '
-                        'nondeterministic case; replay=%s'
-                        % (ex['key'], rc, rc2, path))
+                    unconfirmed.append((path, ex, n, rc, rc2))
+        confirmed = [v for v in violation_files
+                     if v[0] not in {u[0] for u in unconfirmed}]
+        if unconfirmed and not confirmed:
+            path, ex, n, rc, rc2 = unconfirmed[0]
+            raise HarnessError(
+                'case %s failed in the exploration but neither when '
+                'replayed alone (rc=%s) nor when its shard was run '
+                'again in a fresh interpreter (rc=%s): '
+                'nondeterministic case; replay=%s'
+                % (ex['key'], rc, rc2, path))
+        # Some violations are confirmed: they are the verdict.  A failure that
+        # only shows after other shards ran in the same worker process (state
+        # the library keeps process-wide) is listed as a remark.
+        violation_files = confirmed
+        for path, ex, n, rc, rc2 in unconfirmed:
+            lines.append('# not reproduced outside its worker process (%d '
+                         'case(s) like %s %s): depends on what the process '
+                         'had evaluated before' % (
+                             n, short(ex['key'], 120), short(ex['sig'], 120)))
     for path, ex, n in violation_files:
         lines.append('VIOLATION property=%s replay=%s  # %d case(s) like: %s %s'
                      % (prop, path, n, short(ex['key'], 140),
